@@ -683,6 +683,10 @@ func (viso *VirtualISO) ReadAt(p []byte, off int64) (int, error) {
 
 	// TODO: make ReadAt able to work from multiple goroutines without data races
 	nw, err := viso.read(p, off)
+	if err == nil && int(nw) < len(p) {
+		err = io.EOF // io.ReaderAt: less than asked comes with the reason
+	}
+
 	return int(nw), err
 }
 
